@@ -65,7 +65,10 @@ def suiteGoWrap (_kvs : List (String × String)) (lines : List (String × String
       let passThrough := kvBool kvs "nilc" false || kvBool kvs "dis" false
       let v := v.orElse fun _ => if notStarted then some "the wrapped function was never started" else none
       let c08 : Option String := if notStarted && passThrough then some "Go on a nil / zero-value / Disabled circuit did not run the function" else none
-      let parts := (match v with | none => [] | some msg => ["C18:" ++ msg]) ++ (match c10 with | none => [] | some msg => ["C10:" ++ msg]) ++ (match c08 with | none => [] | some msg => ["C08:" ++ msg])
+      -- C07: a fallback always receives the caller's own context; so does a run function when no timeout context is derived
+      let expectSame := (kvGet kvs "fn") == some "fb" || (kvGet kvs "via") != some "timeout"
+      let c07 : Option String := if expectSame && (kvGet rk "same") == some "0" then some "under Go the function did not receive the caller's own context" else none
+      let parts := (match c07 with | none => [] | some msg => ["C07:" ++ msg]) ++ (match v with | none => [] | some msg => ["C18:" ++ msg]) ++ (match c10 with | none => [] | some msg => ["C10:" ++ msg]) ++ (match c08 with | none => [] | some msg => ["C08:" ++ msg])
       m ++ "\t" ++ (if parts.isEmpty then "-" else "!" ++ "|".intercalate parts)
 
 end CM
